@@ -218,6 +218,17 @@ static void world_gen(Rng &r, Plan &p, Tier tier, uint64_t index)
 			Step s("ADVANCE");
 			s.set("dt", r.range(0, 3600));
 			push(s);
+		} else if (roll < 30 && bias != "C05" && bias != "C08") {
+			// key rotation / reconfiguration of a verifier in mid-run: tokens issued for the old
+			// configuration are replayed later from the pool against the new one
+			Step s("RECONFIG");
+			s.set("to", (int64_t)r.below((uint64_t)n_ver));
+			s.set("owner", (int64_t)r.below((uint64_t)n_owner));
+			s.set("form", r.chance(3, 4) ? 0 : 1);
+			s.set("explicit", (int64_t)r.pick(std::vector<int>{0, 0, -1, -1, -1, -2, -3}));
+			s.set("exsel", (int64_t)r.below(64));
+			s.set("clear", r.chance(1, 6) ? 1 : 0);
+			push(s);
 		} else if ((bias == "C06" && roll < 75) || roll < 32) {
 			Step s("GARBAGE");
 			s.set("to", (int64_t)r.below((uint64_t)n_ver));
@@ -784,6 +795,51 @@ static void do_party(World &w, const Step &s, bool checker)
 	(checker ? w.verifiers : w.issuers).push_back(std::move(p));
 }
 
+// RECONFIG: jwt_checker_setkey again on a live checker (only for verifiers configured by setkey
+// alone). An admitted pair replaces the configuration; a refused one leaves the previous key and
+// algorithm in force, which the following deliveries check.
+static void do_reconfig(World &w, const Step &s)
+{
+	Ctx &ctx = w.ctx;
+	if (w.verifiers.empty() || w.owners.empty())
+		return;
+	Party &v = w.verifiers[(uint64_t)s.I("to") % w.verifiers.size()];
+	if (!v.chk || ROUTES[v.route].cb != 0) {
+		ctx.logf("RECONFIG skipped (verifier uses a callback)");
+		return;
+	}
+	int oi = (int)((uint64_t)s.I("owner") % w.owners.size());
+	Owner *o = &w.owners[(size_t)oi];
+	bool clear = s.I("clear") != 0 || !o->ok;
+	bool form_priv = s.I("form") != 0;
+	const jwk_item_t *item = clear ? NULL : (form_priv ? o->priv.item : o->pub.item);
+	int key_alg = clear ? JWT_ALG_NONE : o->key_alg;
+	int E = clear ? JWT_ALG_NONE : choose_explicit(s, o);
+	set_provider(v.prov);
+	int r;
+	{
+		Armed a;
+		r = jwt_checker_setkey(v.chk, (jwt_alg_t)E, item);
+	}
+	bool adm = admissible(item != NULL, key_alg, E);
+	bool dont_care = key_alg == JWT_ALG_INVAL || E >= JWT_ALG_INVAL || E < 0;
+	ctx.logf("RECONFIG verifier setkey(%s, %s key_alg=%s) -> %d (model admits=%d)", alg_name(E), item ? o->truth->label.c_str() : "NULL", alg_name(key_alg), r, adm);
+	ctx.count("fault:verifier_reconfigured_mid_run");
+	if (!dont_care && (r == 0) != adm)
+		ctx.violation("C02", "setkey-table", strf("checker:%s:%s:reconfig", row_class(item != NULL, key_alg, E), r == 0 ? "admitted" : "refused"),
+			      strf("jwt_checker_setkey(alg=%s, key %s with alg attribute %s) on a configured checker returned %d; the documented table says %s", alg_name(E),
+				   item ? o->truth->label.c_str() : "NULL", alg_name(key_alg), r, adm ? "accept" : "refuse"));
+	if (r == 0) {
+		v.has_key = item != NULL;
+		v.owner = item ? oi : -1;
+		v.key_alg = key_alg;
+		v.eff_explicit = E;
+		v.form_priv = form_priv;
+		v.route = item ? 0 : 6;
+	} else
+		jwt_checker_error_clear(v.chk); // previous configuration stays in force
+}
+
 static const KeyTruth *party_truth(World &w, const Party &p)
 {
 	if (!p.has_key || p.owner < 0)
@@ -1237,6 +1293,8 @@ static void world_exec(Ctx &ctx)
 				do_deliver(w, s, false);
 			else if (s.op == "GARBAGE")
 				do_deliver(w, s, true);
+			else if (s.op == "RECONFIG")
+				do_reconfig(w, s);
 			else if (s.op == "ADVANCE") {
 				g_clock.advance(s.I("dt"));
 				ctx.logf("ADVANCE %lld", (long long)s.I("dt"));
